@@ -217,3 +217,132 @@ pub fn run_crash(line: &str) -> String {
         out.join(" ")
     )
 }
+
+/// The directory image in the model's format:
+/// IMG:C[<hex|->]M[<n>=<hex>;..]W[<n>=<hex>;..]T[<n>=<entries|unreadable>;..]X[<n>;..]O[other names]
+pub fn image_str(image: &SimFs, cfg: (usize, u64, usize, bool)) -> String {
+    use raindb::verif_hooks::tables as vt;
+    let opts = crate::suite_db::make_options(image, cfg);
+    let mut cur = "-".to_string();
+    let mut ms: Vec<String> = vec![];
+    let mut ws: Vec<String> = vec![];
+    let mut ts: Vec<String> = vec![];
+    let mut xs: Vec<String> = vec![];
+    let mut other: Vec<String> = vec![];
+    for (p, _) in image.all_files() {
+        let name = p.to_string_lossy().to_string();
+        let data = image.read_whole(&p).unwrap_or_default();
+        let base = name.rsplit('/').next().unwrap_or("").to_string();
+        if name == "db/CURRENT" {
+            cur = format!("x{}", hex(&data));
+        } else if name == "db/LOCK" {
+        } else if let Some(n) = base.strip_prefix("MANIFEST-").and_then(|r| r.strip_suffix(".manifest")) {
+            ms.push(format!("{}=x{}", n, hex(&data)));
+        } else if let Some(n) = base.strip_prefix("wal-").and_then(|r| r.strip_suffix(".log")) {
+            ws.push(format!("{}=x{}", n, hex(&data)));
+        } else if let Some(n) = base.strip_suffix(".rdb") {
+            let ent = |e: &(Vec<u8>, u64, u8, Vec<u8>)| format!("x{}:{}:{}:x{}", hex(&e.0), e.1, e.2, hex(&e.3));
+            let entries = match vt::VTable::open(opts.clone(), &p) {
+                Ok(t) => match t.layout() {
+                    Ok(l) => {
+                        let es: Vec<String> = l.into_iter().flat_map(|(_, _, es)| es).map(|e| ent(&e)).collect();
+                        if es.is_empty() { "-".to_string() } else { es.join(",") }
+                    }
+                    Err(_) => "unreadable".to_string(),
+                },
+                Err(_) => "unreadable".to_string(),
+            };
+            ts.push(format!("{}={}", n, entries));
+        } else if let Some(n) = base.strip_suffix(".dbtemp") {
+            xs.push(n.to_string());
+        } else {
+            other.push(name.clone());
+        }
+    }
+    format!(
+        "IMG:C[{}]M[{}]W[{}]T[{}]X[{}]O[{}]",
+        cur,
+        ms.join(";"),
+        ws.join(";"),
+        ts.join(";"),
+        xs.join(";"),
+        other.join(";")
+    )
+}
+
+/// Suite `recover`: same case format as `crash`; for every crash image the image itself (in the
+/// model's format) and what the real `DB::open` recovers from it: result, last sequence number,
+/// full scan.   output: <id> N=<oplog len> then per image  <n>.<torn>|<open result>|<seq>|<scan>|<IMG..>
+pub fn run_recover(line: &str) -> String {
+    let parts: Vec<&str> = line.split(" # ").collect();
+    let toks = split_nonempty(parts[0], ' ');
+    let id = toks[0];
+    let cfg = parse_cfg(toks[1]);
+    let post_toks = split_nonempty(parts[1], ' ');
+    let post_cfg = parse_cfg(post_toks[0]);
+    let points_spec = parts[2].trim();
+    let sim = SimFs::new();
+    let mut sess = match Session::open(sim.clone(), cfg) {
+        Ok(s) => s,
+        Err(e) => return format!("{} open-{}", id, e),
+    };
+    for op in &toks[2..] {
+        if sess.db.is_none() && op.as_bytes()[0] != b'O' {
+            continue;
+        }
+        sess.exec(op);
+    }
+    if sess.db.is_some() {
+        sess.quiesce();
+    }
+    sess.close();
+    let oplog = sim.oplog();
+    let n = oplog.len();
+    let mut spec_parts = points_spec.split(',');
+    let main = spec_parts.next().unwrap();
+    let torn = spec_parts.any(|e| e == "torn");
+    let points: Vec<usize> = if main == "all" {
+        (0..=n).collect()
+    } else if let Some(k) = main.strip_prefix("step:") {
+        let k: usize = k.parse().unwrap();
+        let mut v: Vec<usize> = (0..=n).step_by(k.max(1)).collect();
+        if *v.last().unwrap() != n {
+            v.push(n);
+        }
+        v
+    } else if let Some(l) = main.strip_prefix("list:") {
+        l.split(';').filter(|x| !x.is_empty()).map(|x| x.parse::<usize>().unwrap().min(n)).collect()
+    } else {
+        panic!("bad points spec {}", points_spec)
+    };
+    let mut out: Vec<String> = vec![];
+    for &p in &points {
+        let mut variants: Vec<Option<usize>> = vec![None];
+        if torn && p > 0 {
+            if let FsOp::Write { data, .. } = &oplog[p - 1] {
+                let l = data.len();
+                for t in [1usize, l / 2, l.saturating_sub(1)] {
+                    if t > 0 && t < l && !variants.contains(&Some(t)) {
+                        variants.push(Some(t));
+                    }
+                }
+            }
+        }
+        for v in variants {
+            let image = SimFs::from_ops(&oplog[..p], v);
+            let img = image_str(&image, post_cfg);
+            let res = match Session::open(image.clone(), post_cfg) {
+                Err(e) => format!("open-{}|-|-", e),
+                Ok(mut s) => {
+                    let seq = s.db().verif_dump().last_sequence;
+                    s.quiesce();
+                    let scan = s.scan_all(None);
+                    s.close();
+                    format!("ok|{}|{}", seq, scan)
+                }
+            };
+            out.push(format!("{}.{}|{}|{}", p, v.map(|x| x.to_string()).unwrap_or("-".to_string()), res, img));
+        }
+    }
+    format!("{} N={} {}", id, n, out.join(" "))
+}
